@@ -647,6 +647,63 @@ def check_c32(A: Analysis, col: Collector):
     keys = []
     for k in dicts[0].value.keys:
         keys.append(k.value if isinstance(k, ast.Constant) else norm(k))
+    # fields are emitted in declaration order: positional semantics depend on it (a python task assigns a
+    # returned tuple to its outputs by position; shell positions default to definition order)
+    fcomps = [k for k in walk_own(un.node) if isinstance(k, (ast.ListComp, ast.GeneratorExp)) and any(isinstance(c, ast.Call) and norm(c.func).endswith("asdict") for c in ast.walk(k.elt))]
+    A.anchor("field-serialising comprehensions in unstructure", fcomps)
+    if len(fcomps) < 2:
+        raise AnalysisError(f"C32: {len(fcomps)} field-serialising comprehensions in unstructure; floor 2 (inputs, outputs)")
+
+    def _reorders(expr) -> str | None:
+        for c in ast.walk(expr):
+            if isinstance(c, ast.Call):
+                nm = dotted(c.func) or ""
+                if nm in ("sorted", "reversed", "set", "frozenset") or (isinstance(c.func, ast.Attribute) and c.func.attr == "sort"):
+                    return nm or "sort"
+                h = un.nested.get(nm)
+                if h is not None and any(isinstance(k, ast.Call) and (dotted(k.func) or "") in ("sorted", "reversed", "set", "frozenset") for k in ast.walk(h.node)):
+                    return f"{nm}() -> sorted"
+        return None
+
+    for fc in fcomps:
+        it = fc.generators[0].iter
+        src = it
+        if isinstance(it, ast.Name):
+            defs = [d.value for d in walk_own(un.node) if isinstance(d, ast.Assign) and isinstance(d.targets[0], ast.Name) and d.targets[0].id == it.id]
+            src = defs[0] if len(defs) == 1 else it
+        r = _reorders(it) or (_reorders(src) if src is not it else None)
+        from_fields = any(isinstance(c, ast.Call) and any(q.endswith("get_fields") for q in A.callee_names(c, un)) for c in ast.walk(src))
+        if r:
+            col.fail("C32.order", un.qualname, f"fields-emitted-reordered:{r}", f"`{norm(it, 50)}` emits the fields through `{r}` instead of in declaration order: after the round trip a python task's returned tuple is assigned to its outputs in the new order (values land on the wrong output names) and implicit shell positions change", A.loc(fc))
+        elif from_fields:
+            col.ok("C32.order", f"`{norm(it, 40)}`: fields are emitted in the order get_fields returns them (declaration order)", A.loc(fc))
+        else:
+            raise AnalysisError("C32: the source of a field-serialising comprehension in unstructure is not get_fields(...)")
+    # the reader builds a field given as a dictionary from that dictionary alone: nothing taken from the
+    # function signature may override a serialised key
+    ef = A.func("pydra.compose.base.helpers.extract_function_inputs_and_outputs")
+    col.scope(ef.qualname)
+    dict_branches = [i for i in walk_own(ef.node) if isinstance(i, ast.If) and isinstance(i.test, ast.Call) and dotted(i.test.func) == "isinstance" and len(i.test.args) == 2 and norm(i.test.args[1]) == "dict"]
+    A.anchor("`isinstance(<field spec>, dict)` branches in extract_function_inputs_and_outputs", dict_branches)
+    for br in dict_branches:
+        spec = norm(br.test.args[0])
+        for c in [k for st_ in br.body for k in ast.walk(st_) if isinstance(k, ast.Call)]:
+            stars = [kw_ for kw_ in c.keywords if kw_.arg is None]
+            if not stars:
+                continue
+            v = stars[0].value
+            if norm(v) == spec and len(c.keywords) == 1 and not c.args:
+                col.ok("C32.values", f"a field given as a dictionary is built from it alone (`{norm(c, 40)}`)", A.loc(c))
+            elif isinstance(v, ast.Dict) and None in [k for k in v.keys]:
+                idx = max(i for i, k in enumerate(v.keys) if k is None and norm(v.values[i]) == spec) if any(k is None and norm(v.values[i]) == spec for i, k in enumerate(v.keys)) else None
+                later = [k.value for i, k in enumerate(v.keys) if k is not None and idx is not None and i > idx and isinstance(k, ast.Constant)]
+                if later:
+                    col.fail("C32.values", ef.qualname, "serialised-key-overridden:" + "+".join(map(str, later)), f"`{norm(c, 60)}`: the keys {later} written after `**{spec}` replace the values stored in the dictionary (e.g. the serialised default is replaced by the default in the function signature), so the re-created task differs from the original", A.loc(c))
+                else:
+                    col.ok("C32.values", f"`{norm(c, 50)}`: the dictionary's own keys take precedence", A.loc(c))
+            elif len(c.keywords) > 1 and any(kw_.arg for kw_ in c.keywords):
+                # f(**spec, default=x) raises on a duplicate key instead of overriding: not a silent change
+                col.ok("C32.values", f"`{norm(c, 50)}`: explicit keywords next to **{spec} cannot silently override a serialised key (duplicate keywords raise)", A.loc(c))
     task = A.cls("pydra.compose.base.task.Task")
     tca = task.class_assigns.get("TASK_CLASS_ATTRS")
     class_attrs = [e.value for e in tca.value.elts] if tca is not None and isinstance(tca.value, ast.Tuple) else []
@@ -725,7 +782,8 @@ def _copy_nested_core(A: Analysis, col: Collector, rule: str):
     memo_get = any(isinstance(n, ast.Return) and isinstance(n.value, ast.Subscript) and norm(n.value) == "cache[fileset]" for n in walk_own(cf.node))
     memo_set = any(isinstance(n, ast.Assign) and norm(n.targets[0]) == "cache[fileset]" for n in walk_own(cf.node))
     memo_defs = [n for n in walk_own(cn.node) if isinstance(n, (ast.Assign, ast.AnnAssign)) and norm(n.targets[0] if isinstance(n, ast.Assign) else n.target) == "cache"]
-    memo_local = bool(memo_defs) and all(isinstance(n.value, ast.Dict) and not n.value.keys or (isinstance(n.value, ast.Call) and dotted(n.value.func) == "dict" and not n.value.args) for n in memo_defs)
+    memo_is_param = "cache" in {p_.arg for p_ in cn.params()} or any(kw_.arg == "cache" for c_ in A.calls(cn) for kw_ in c_.keywords if False)
+    memo_local = not memo_is_param and bool(memo_defs) and all(isinstance(n.value, ast.Dict) and not n.value.keys or (isinstance(n.value, ast.Call) and dotted(n.value.func) == "dict" and not n.value.args) for n in memo_defs)
     if memo_get and memo_set and not memo_local:
         col.fail(rule, cn.qualname, "fileset-memo-shared-across-calls", "the per-file-set memo of copy_nested_files is not a fresh dict of the call (it can be handed in / shared): a file-set staged for one field with one copy mode is re-used for another field that asked for a different mode (e.g. a link is handed to a field declared copy)", A.loc(memo_defs[0]) if memo_defs else A.loc(cn.node))
     elif memo_get and memo_set:
